@@ -12,6 +12,16 @@ CHECKS = {
             "Every message validator is evaluated on the complete product of per-field boundary sets (every single bit, every alignment/limit neighbour, 0/1/max; 4.7e7 tuples quick, 1.3e10 thorough) built from raw bytes, and on every request code in [0,4096] and +-64 around each power of two, and compared with an independently written predicate. Validators are pure functions of a few fields whose decision boundaries lie on those values, so the boundary product decides them up to values strictly between lattice points.",
             "Trusted: the reference predicates in vmc/src/model/validators.rs transcribe the statement's rules; padding bytes the specification leaves open are don't-care. Values strictly inside lattice intervals are not enumerated.",
             "DESIGN.md 4/C20"),
+    "C03": ("model_checking", "lattice",
+            "exhaustive enumeration of (operation x scripted handler outcome x negotiation x flags x position) on the real Frontend<->BackendReqHandler pair in single-threaded coop mode; 'would block forever' decided by the interposer",
+            "Every reply-bearing and every acknowledged frontend operation is executed against the real backend request server for every scripted handler outcome (success values incl. 0/max patterns, with/without file, Err, wrong-length config data), with REPLY_ACK negotiated or not, NEED_REPLY on/off, as first call and after a successful call. Both endpoints run on one thread; when the frontend would wait on an empty socket the interposer runs the server, and if the socket is still empty the call is decided to wait forever - no timeout is involved. The returned value is compared with the scripted one.",
+            "Trusted: the server-side driver behaves like the daemon thread (serves while Ok, shuts the socket down on Err). Values outside the scripted variants are not covered.",
+            "DESIGN.md 4/C03"),
+    "C08": ("fault_enumeration", "lattice",
+            "exhaustive enumeration of stream segmentations (2-/3-splits, byte-by-byte), truncation offsets and short-write/EAGAIN patterns on the real endpoints via libc interposition",
+            "For every message type of every receiver (backend request server, frontend reply paths, frontend request server, Backend/GPU proxy ack paths) every 2-split position (all positions for short messages, boundary neighbourhoods + stride for long ones), byte-by-byte delivery and 3-splits are delivered by a raw peer that writes the next segment only when the receiver starts waiting; every cut offset followed by close; for every sender every single short-write position, pairs and EAGAIN/EINTR patterns injected at sendmsg. Oracle: same handler log, reply bytes and result as unsplit delivery; bytes exactly once and in order with descriptors only at offset 0; truncation = error, clean Disconnected only at offset 0, nothing dispatched, no indefinite wait.",
+            "Trusted: kernel unix-socket semantics for the segment boundaries; the unsplit run of the same message is the reference. Random segmentations with delays are not claimed.",
+            "DESIGN.md 4/C08"),
     "C19": ("exploration", "lattice",
             "exhaustive enumeration of every kernel-backend operation x argument lattice under ioctl/open64 interposition, compared with a gcc-compiled UAPI reference",
             "Every trait operation of the kernel-vhost, vhost-net, vhost-vsock and vhost-vDPA backends is executed on an intercepted dummy device for the whole argument lattice (queue indexes, 64-bit values, region tables of 0..=257 entries, config buffers of 0..=256 bytes, all IOTLB type x permission pairs in v1 and v2, 3 guest memory layouts, all ring-size/max/log-flag combinations); the captured (request, argument bytes) are compared with numbers, sizes and offsets computed by gcc from <linux/vhost.h>, the value returned with what the scripted kernel wrote back. The operations are single, non-interacting calls, so per-operation exhaustive input enumeration is the right level.",
